@@ -14,7 +14,12 @@ import (
 func atlasByID(s string) *atlasCfg {
 	buildAtlases()
 	id, _ := strconv.Atoi(s)
-	return atlases[id]
+	for _, a := range atlases {
+		if a.id == id {
+			return a
+		}
+	}
+	return atlases[0]
 }
 
 func safeBindM(m *obj.Marshaller, v interface{}) (err error, panicked bool) {
